@@ -16,9 +16,14 @@ def vectors(run, wide=False):
 def check(run):
     exe = vlib.build_harness(run)
     vecs = vectors(run, wide=run.tier != "quick")
-    jobs = [dict(v, k="short") for v in vecs]
+    jobs = sorted([dict(v, k="short") for v in vecs], key=lambda j: (j["eco"], j["construct"], j["text"]))   # TLC's output order varies
     nsh = 8
+    # eight interleaved shards (eight processes) and, per ecosystem, the whole table in one process in table order and in
+    # reverse order: a range must denote its interval whatever was parsed before it in the same process
     shards = [jobs[i::nsh] for i in range(nsh)]
+    for e in ECOS:
+        je = [j for j in jobs if j["eco"] == e]
+        shards += [je, je[::-1]]
     def one(k_sh):
         k, sh = k_sh
         jp, ep = run.path("jobs%d.ndjson" % k), run.path("ev%d.ndjson" % k)
